@@ -452,3 +452,86 @@ def rng_env(ctx):
             mapping[(m, "np")] = NPProxy(nr)
     mapping[("xgi.generators.uniform", "int")] = sint
     return patched(mapping), r, nr
+
+
+# ---------------------------------------------------------------------------
+# C17: seeded streams.  A draw is the uninterpreted value R(stream, position):
+# draws made after seed(s) inside the call under test share one namespace across
+# calls (same seed => same variables); ambient draws get a namespace per call.
+# ---------------------------------------------------------------------------
+class StreamRandom:
+    def __init__(self, ctx, family):
+        self.ctx = ctx
+        self.family = family
+        self.call = 0
+        self.seeded = False
+        self.pos = 0
+        self.ambient_draws = 0
+        self.seeds = []
+
+    def begin_call(self, k):
+        self.call = k
+        self.seeded = False
+        self.pos = 0
+
+    def seed(self, s=None):
+        self.seeds.append(s)
+        self.seeded = s is not None
+        self.pos = 0
+
+    def _n(self, kind):
+        self.pos += 1
+        self.ctx.hit(f"{self.family}.{kind}")
+        if self.seeded:
+            return f"{self.family}.S.{self.pos}.{kind}"
+        self.ambient_draws += 1
+        return f"{self.family}.A{self.call}.{self.pos}.{kind}"
+
+    # the same surface as SymRandom / NPRandomStub
+    def random(self, size=None):
+        if size is None:
+            return self.ctx.real(self._n("random"), 0, 1, hi_strict=True)
+        return SymArray(self.ctx.real(self._n("random"), 0, 1, hi_strict=True) for _ in range(size))
+
+    def rand(self, *shape):
+        import numpy as np
+
+        n = 1
+        for s in shape:
+            n *= s
+        # positions are floats in the real function; a coarse grid keeps them concrete
+        vals = [self.ctx.choose(self._n("rand"), 4) / 4.0 for _ in range(n)]
+        return np.array(vals, dtype=float).reshape(shape)
+
+    def sample(self, population, k):
+        pop = list(population)
+        if k > len(pop) or k < 0:
+            raise ValueError("Sample larger than population or is negative")
+        out = []
+        for _ in range(k):
+            out.append(pop.pop(self.ctx.choose(self._n("sample"), len(pop))))
+        return out
+
+    def choice(self, a, size=None, replace=True):
+        import numpy as np
+
+        pop = list(a)
+        if size is None:
+            return pop[self.ctx.choose(self._n("choice"), len(pop))]
+        out = []
+        for _ in range(size):
+            i = self.ctx.choose(self._n("choice"), len(pop))
+            out.append(pop[i] if replace else pop.pop(i))
+        return np.array(out)
+
+    def shuffle(self, x):
+        x[:] = self.sample(list(x), len(x))
+
+    def geometric(self, p):
+        import numpy as np
+
+        if p == 1:
+            return 1
+        if p == 0:
+            return np.inf
+        return self.ctx.int(self._n("geometric"), 1, 6)
